@@ -4,6 +4,7 @@
 from __future__ import annotations
 
 import difflib
+import os
 import re
 import typing as T
 from configparser import ConfigParser, MissingSectionHeaderError, ParsingError
@@ -1115,7 +1116,13 @@ def run(options: argparse.Namespace) -> int:
             except IOError as e:
                 raise MesonException(f'Unable to write to {src_file}') from e
         elif options.check_only or options.check_diff:
-            if code != formatted:
+            changed = code != formatted
+            if not changed and not from_stdin:
+                # --inplace would also rewrite the line endings
+                newline = formatter.current_config.newline or os.linesep
+                with src_file.open(encoding='utf-8', newline='') as sf:
+                    changed = sf.read() != formatted.replace('\n', newline)
+            if changed:
                 err = 1
                 if options.check_diff:
                     diff = difflib.unified_diff(code.splitlines(), formatted.splitlines(),
